@@ -143,7 +143,7 @@ def dangling(html):
 
 def notes_part(rep, tier, rng, bad):
     drv = common.extract_driver()
-    n = 300 if tier == "quick" else 6000
+    n = 300 if tier == "quick" else 30000
     docs = []
     for i in range(n):
         a = gen_adoc(rng, late=(i % 5 == 4))
@@ -275,7 +275,7 @@ H_OPEN = re.compile(rb'<h([1-9])(?: id="([^"]*)")?>')
 
 def headings_part(rep, tier, rng, bad):
     drv = common.extract_driver()
-    n = 200 if tier == "quick" else 4000
+    n = 200 if tier == "quick" else 16000
     cfgs = [("default", BASE), ("unique", BASE | E["random_labels"]), ("nolabels", BASE | E["nolabels"]), ("random", BASE | E["random_foot"])]
     docs = [gen_headings(rng) for _ in range(n)]
     jobs, idx = [], []
